@@ -1,11 +1,125 @@
 import Oracle.Util
-namespace Oracle.C20
-open Oracle
+import Wz.Model.Listener
+/-
+Oracle topic c20: the listener event stream of a call forest.
 
-/-- Topic state (stub: no model behind this topic yet). -/
+  c20 events <cap|-> <ovp> <bao> <tip> <tj> <scap|-> H=<ids> S=<ids> <forest tokens>
+  c20 chain  <cap|-> <ovp> <bao> <tip> <tj> <scap|-> H=<ids> S=<ids> <f0> <f1> <depth> <full|count> <leaf forest tokens>
+
+forest  := { node }            (ends at `e` or at the end of the line)
+node    := n <tail 0|1> <f> <nargs> <arg>* forest e outcome
+outcome := r <n> <val>* | u | d | o | p | x <code> | v
+ids     := comma separated naturals (may be empty)
+
+Answer (`full`): `<event>* | ok` or `<event>* | fail:<kind>`; event = `B<f>(args)[stack]`, `A<f>(vals)`, `X<f>:<kind>`.
+Answer (`count`): `nBefore nAfter nAbort wellBracketed result`.
+-/
+namespace Oracle.C20
+open Oracle Wz.Model.Listener
+
 abbrev St := Unit
 def init : St := ()
 
-def step (st : St) (_args : List String) : St × String := (st, "bad-op")
+def parseIds (s : String) : Option (List Nat) :=
+  if s.isEmpty then some [] else (s.splitOn ",").mapM parseNat
+
+def takeNats : Nat → List String → Option (List Nat × List String)
+  | 0, ts => some ([], ts)
+  | n + 1, t :: ts => do
+    let v ← parseNat t
+    let (vs, rest) ← takeNats n ts
+    pure (v :: vs, rest)
+  | _ + 1, [] => none
+
+def parseOutcome : List String → Option (Outcome × List String)
+  | "r" :: n :: ts => do
+    let n ← parseNat n
+    let (vs, rest) ← takeNats n ts
+    pure (.ret vs, rest)
+  | "u" :: ts => some (.fail .unreachable, ts)
+  | "d" :: ts => some (.fail .divZero, ts)
+  | "o" :: ts => some (.fail .oob, ts)
+  | "p" :: ts => some (.fail .hostPanic, ts)
+  | "x" :: c :: ts => do
+    let c ← parseNat c
+    pure (.fail (.exit c), ts)
+  | "v" :: ts => some (.fail .overflow, ts)
+  | _ => none
+
+/-- Parses a forest; stops at `e` (not consumed) or at the end of input. -/
+def parseForest : Nat → List String → Option (Forest × List String)
+  | 0, _ => none
+  | _, [] => some (.done, [])
+  | _, "e" :: ts => some (.done, "e" :: ts)
+  | fuel + 1, "n" :: tl :: f :: na :: ts => do
+    let tl ← parseBool tl
+    let f ← parseNat f
+    let na ← parseNat na
+    let (args, ts) ← takeNats na ts
+    let (body, ts) ← parseForest fuel ts
+    match ts with
+    | "e" :: ts =>
+      let (out, ts) ← parseOutcome ts
+      let (next, ts) ← parseForest fuel ts
+      pure (.call tl f args body out next, ts)
+    | _ => none
+  | _, _ => none
+
+def kindStr : FailKind → String
+  | .unreachable => "unreachable"
+  | .divZero => "divzero"
+  | .oob => "oob"
+  | .hostPanic => "hostpanic"
+  | .exit c => s!"exit{c}"
+  | .overflow => "overflow"
+
+def natsStr (l : List Nat) : String := ",".intercalate (l.map toString)
+
+def eventStr : Event → String
+  | .before f a s => s!"B{f}({natsStr a})[{natsStr s}]"
+  | .after f v => s!"A{f}({natsStr v})"
+  | .abort f k => s!"X{f}:{kindStr k}"
+
+def resStr : Option Fail → String
+  | none => "ok"
+  | some fl => s!"fail:{kindStr fl.kind}"
+
+def parseEngine (cap ovp bao tip tj scap : String) : Option Engine := do
+  let cap ← if cap == "-" then some none else (parseNat cap).map some
+  let scap ← if scap == "-" then some none else (parseNat scap).map some
+  let ovp ← parseBool ovp
+  let bao ← parseBool bao
+  let tip ← parseBool tip
+  let tj ← parseBool tj
+  pure { abortCap := cap, overflowPanics := ovp, beforeAtOverflow := bao, tailInPlace := tip, tailJump := tj, stackCap := scap }
+
+def parseSet (pre : String) (s : String) : Option (Nat → Bool) :=
+  if s.startsWith pre then
+    (parseIds (s.drop pre.length).toString).map (fun l => fun n => l.contains n)
+  else none
+
+def answer (mode : String) (E : Engine) (C : Cfg) (fr : Forest) : String :=
+  let (evs, r) := run E C true [] fr
+  if mode == "count" then
+    let nb := (evs.filter (fun e => match e with | .before .. => true | _ => false)).length
+    let na := (evs.filter (fun e => match e with | .after .. => true | _ => false)).length
+    let nx := (evs.filter (fun e => match e with | .abort .. => true | _ => false)).length
+    s!"{nb} {na} {nx} {b2s (decide (WellBracketed evs))} {resStr r}"
+  else
+    " ".intercalate (evs.map eventStr) ++ " | " ++ resStr r
+
+def step (st : St) (args : List String) : St × String :=
+  match args with
+  | "events" :: cap :: ovp :: bao :: tip :: tj :: scap :: h :: s :: toks =>
+    match parseEngine cap ovp bao tip tj scap, parseSet "H=" h, parseSet "S=" s, parseForest (toks.length + 1) toks with
+    | some E, some host, some lsn, some (fr, []) => (st, answer "full" E ⟨host, lsn⟩ fr)
+    | _, _, _, _ => (st, "bad-op")
+  | "chain" :: cap :: ovp :: bao :: tip :: tj :: scap :: h :: s :: f0 :: f1 :: depth :: mode :: toks =>
+    match parseEngine cap ovp bao tip tj scap, parseSet "H=" h, parseSet "S=" s, parseNat f0, parseNat f1, parseNat depth,
+          parseForest (toks.length + 1) toks with
+    | some E, some host, some lsn, some f0, some f1, some d, some (leaf, []) =>
+      (st, answer mode E ⟨host, lsn⟩ (chain f0 f1 d leaf))
+    | _, _, _, _, _, _, _ => (st, "bad-op")
+  | _ => (st, "bad-op")
 
 end Oracle.C20
